@@ -42,9 +42,19 @@ MaxEarly == 3
 
 \* a executed before b although b is logged first: only worth trying when the two do not commute
 Dep(a, b) ==
-  \/ a.ev \in {"Cli_Connect", "Wake_Connect", "Sig_Recv", "Flag_Set"} /\ b.ev \in {"Accept_Return", "Cli_Connect", "Wake_Connect"}
+  \* FIFO of the backlog: the harness connects its clients one after the other (their connects are ordered as
+  \* logged); only the wake-up connection of the run thread can overtake or be overtaken, and an accept can be
+  \* logged before the connect it accepted
+  \/ a.ev = "Cli_Connect" /\ b.ev = "Accept_Return" /\ a.c = b.c
+  \/ a.ev = "Cli_Connect" /\ b.ev = "Wake_Connect"
+  \* a connect that succeeded just before the listener was closed (silent Closure_Drop) but is logged after run returned
+  \/ a.ev = "Cli_Connect" /\ b.ev = "Run_Return"
+  \/ a.ev \in {"Sig_Recv", "Flag_Set", "Wake_Connect"} /\ b.ev = "Cli_Connect"
+  \/ a.ev \in {"Sig_Recv", "Flag_Set", "Wake_Connect"} /\ b.ev = "Accept_Return" /\ b.c = WAKE
+  \* the flag: store and load race
   \/ a.ev \in {"Sig_Recv", "Flag_Set"} /\ b.ev = "Flag_Read"
   \/ a.ev = "Flag_Read" /\ b.ev = "Flag_Set"
+  \* execute()/spawn() is reported after the job may already be running; the drop after the client saw it
   \/ a.ev = "Dispatch" /\ b.ev = "H_Read"
   \/ a.ev = "Loop_Exit" /\ b.ev = "Cli_Eof"
 
